@@ -137,6 +137,31 @@ theorem C16 : C16_full C16Data.actCfg := by
 theorem C16_command (q : RQ) (hl : LexInv C16Data.actCfg q.yield) : queryStr q = verbatim q.yield := by
   rw [(C16_rawquery q).1]; exact C16 _ hl
 
+-- [review] `C16_layout_source` for the LIVE configuration: the "no lexeme is rewritten" hypothesis `hu` is discharged
+-- by `C16_live_cfg`, so for every layout of the inner text (any lexemes incl. `''`, `'it''s'`, `@v`, any gaps) the
+-- stored text is the inner text with the leading gap dropped and every other gap blanked.
+/-- [review] T16.1 for every layout of the inner text, live lexer configuration, no hypothesis on the lexemes -/
+theorem C16_review_layout_source_live (idx line : Nat) (s : Seg) (r : List Seg)
+    (hg : ∀ x ∈ r, x.dl ≠ 0 → x.gap ≠ []) :
+    tokensToString (place C16Data.actCfg idx line (s :: r)) = storedSpec (s :: r) :=
+  C16_layout_source _ idx line s r hg (by
+    intro x _; rw [C16_live_cfg]; cases x.type <;> rfl)
+
+-- [review] the stored text is exactly as long as the inner text minus its leading gap (nothing is lost or added)
+theorem C16_review_storedSpec_length (s : Seg) (r : List Seg) (hg : ∀ x ∈ r, x.dl ≠ 0 → x.gap ≠ []) :
+    (storedSpec (s :: r)).length + s.gap.length = (sourceText (s :: r)).length := by
+  have key : ∀ r : List Seg, (∀ x ∈ r, x.dl ≠ 0 → x.gap ≠ []) → (storedTail r).length = (sourceText r).length := by
+    intro r
+    induction r with
+    | nil => intro _; rfl
+    | cons a t ih =>
+      intro h
+      have h1 := blank_length a (h a (List.mem_cons_self ..))
+      have h2 := ih (fun x hx => h x (List.mem_cons_of_mem _ hx))
+      simp [storedTail, sourceText, h1, h2]
+  simp [storedSpec, sourceText, key r hg]
+  omega
+
 /-- **Φ16** on the regenerated mindsdb grammar: `all_tokens_list = tokens \ {LPAREN, RPAREN}`; the lexer's
 tokens are the grammar's terminals; every `raw_query` production has one of the four modelled shapes, one
 per token of `all_tokens_list`; everywhere else `raw_query` occurs only as `LPAREN raw_query RPAREN`. -/
@@ -310,5 +335,14 @@ example : storedSpec okSegs = "select       1\n from t".toList := by decide
 def okRQ : RQ := .cat (.call (.tok (lexTok pinnedCfg otherTy "f".toList 1 0)) (lexTok pinnedCfg otherTy "(".toList 1 1) (lexTok pinnedCfg otherTy ")".toList 1 2))
   (.paren (lexTok pinnedCfg otherTy "(".toList 1 4) (.tok (lexTok pinnedCfg otherTy "a".toList 1 5)) (lexTok pinnedCfg otherTy ")".toList 1 6))
 example : queryStr okRQ = "f() (a)".toList := by decide
+
+-- [review] non-vacuity of the main theorem `C16` for the LIVE configuration, on tokens of the formerly failing classes
+-- (`'it''s'`, `''`, `@v`) over two lines: `LexInv C16Data.actCfg` holds and the stored text keeps quotes / sigil.
+def live1 : List Tok := [lexTok C16Data.actCfg otherTy "name".toList 1 0, lexTok C16Data.actCfg otherTy "=".toList 1 5,
+  lexTok C16Data.actCfg .quote "'it''s'".toList 1 7, lexTok C16Data.actCfg otherTy ",".toList 1 14,
+  lexTok C16Data.actCfg .var "@v".toList 2 20, lexTok C16Data.actCfg .quote "''".toList 2 23]
+example : LexInv C16Data.actCfg live1 := by decide  -- [review]
+example : tokensToString live1 = "name = 'it''s',\n    @v ''".toList := by decide  -- [review]
+example : tokensToString live1 = verbatim live1 := C16 live1 (by decide)  -- [review]
 
 end MindsVerif.Props.C16
